@@ -176,7 +176,7 @@ func execFanout(t *testing.T, fc *FanoutCase, only []bool) fanoutObs {
 		for _, sn := range notifiers {
 			for k, cl := range sn.calls {
 				o.payloads++
-				if why := payloadFaithful(fc.Alerts, idxs(alerts, cl.alerts), cl.payload); why != "" && o.payloadViol == "" {
+				if why := payloadFaithful(fc.Alerts, idxs(alerts, cl.alerts), cl.payload, o.start, cl.at); why != "" && o.payloadViol == "" {
 					o.payloadViol = fmt.Sprintf("integration %d attempt %d: %s", sn.id, k+1, why)
 				}
 			}
